@@ -195,11 +195,30 @@ def rand_point(rng):
             return q
 
 
+def special_lams(q, rng):
+    """scale factors that give one projective coordinate of (x:y:1:xy) a special value (1, -1, a tiny number)"""
+    x, y = q
+    out = []
+    for c in (x, y, x * y % P):
+        if c != 0:
+            ci = spec.inv(c)
+            out.extend([ci, (P - ci) % P, rng.randrange(2, 40) * ci % P])
+    return out
+
+
 def point_in(pr, rng, q=None, rescale_prob=0.5):
     q = q if q is not None else rand_point(rng)
     n = pr.point(spec.encode_point(q))
     if rng.random() < rescale_prob:
-        pr.rescale(n, rng.choice([2, P - 1, rng.randrange(2, P)]))
+        lams = [2, P - 1, rng.randrange(2, P)]
+        # representations in which one projective coordinate takes a special value (1, -1, a tiny number): the point is
+        # the same, but code that looks at a raw coordinate instead of the affine one sees something else
+        x, y = q
+        for c in (x, y, x * y % P):
+            if c != 0:
+                ci = spec.inv(c)
+                lams.extend([ci, (P - ci) % P, rng.randrange(2, 40) * ci % P])
+        pr.rescale(n, rng.choice(lams))
     return n
 
 
@@ -848,6 +867,38 @@ def gen_C11(rng, tier):
         pr.emit("P.SetBytes", p, b32)
         pr.tag("setters leave inputs unchanged")
         cases.append(pr)
+        # pure readers leave their receiver and arguments bit-identical, in every representation (Z = 1, Z != 1, loose limbs)
+        pr = Prog(rng)
+        pa = point_in(pr, rng, rescale_prob=0)
+        pb = point_in(pr, rng, rescale_prob=1)
+        pc = point_in(pr, rng)
+        pr.emit("P.Add", pc, pc, pb)
+        ea = pr.elem(limbs=rand_limbs(rng))
+        eb = pr.elem(limbs=near_p_limbs(rng))
+        sa = pr.scalar(rand_scalar(rng))
+        sb = pr.scalar(rand_scalar(rng))
+        for x in (pa, pb, pc):
+            for rd in ("P.Bytes", "P.BytesMontgomery"):
+                pr.emit(rd, x, pr.fresh("o"))
+                pr.emit("P.show", x)
+            pr.emit("P.ExtendedCoordinates", x, *(pr.fresh("c") for _ in range(4)))
+            pr.emit("P.show", x)
+            for y in (pa, pc):
+                pr.emit("P.Equal", x, y)
+                pr.emit("P.show", x)
+                pr.emit("P.show", y)
+        for x in (ea, eb):
+            pr.emit("E.Bytes", x, pr.fresh("o"))
+            pr.emit("E.IsNegative", x)
+            pr.emit("E.Equal", x, ea)
+            pr.emit("E.Equal", ea, x)
+            pr.emit("E.show", x)
+        pr.emit("S.Bytes", sa, pr.fresh("o"))
+        pr.emit("S.Equal", sa, sb)
+        pr.emit("S.show", sa)
+        pr.emit("S.show", sb)
+        pr.tag("pure readers leave receiver and arguments unchanged")
+        cases.append(pr)
     return cases
 
 
@@ -948,6 +999,34 @@ def gen_C13(rng, tier):
         o = pr.fresh("o")
         pr.emit("P.Bytes", v, o)
         pr.tag("valid quadruples, single-relation violations")
+        cases.append(pr)
+    # several exports before the imports: an exported quadruple must survive later exports (and arithmetic on the source)
+    for _ in range(scale(tier, 2, 20)):
+        pr = Prog(rng)
+        pts = [point_in(pr, rng) for _ in range(rng.choice([2, 3, 4]))]
+        quads = []
+        for a in pts:
+            q = tuple(pr.fresh("c") for _ in range(4))
+            pr.emit("P.ExtendedCoordinates", a, *q)
+            quads.append(q)
+        # keep the encodings of the sources, then disturb the sources
+        encs = []
+        for a in pts:
+            o = pr.fresh("o")
+            pr.emit("P.Bytes", a, o)
+            encs.append(o)
+        if rng.random() < 0.5:
+            pr.emit("P.Add", pts[0], pts[0], pts[-1])
+        order = list(range(len(pts)))
+        rng.shuffle(order)
+        for i in order:
+            w = pr.point_zero()
+            pr.emit("P.SetExtendedCoordinates", w, *quads[i])
+            o = pr.fresh("o")
+            pr.emit("P.Bytes", w, o)
+            for c in quads[i]:
+                pr.emit("E.show", c)
+        pr.tag("several exports, then imports in another order")
         cases.append(pr)
     pr = Prog(rng)
     v = point_in(pr, rng)
@@ -1056,6 +1135,21 @@ def gen_C15(rng, tier):
             pr.emit(op, v, 0, 1, g)
             pr.emit(op, v, 1, 0, s)
             pr.emit(op, v, 1, 2, s, z, g)     # both wrong: length is checked first
+            # a zero scalar (literal, or s - s) does not excuse an uninitialized point
+            s0 = pr.scalar(0)
+            sd = pr.scalar(0)
+            pr.emit("S.Subtract", sd, s, s)
+            pr.emit(op, v, 1, 1, s0, z)
+            pr.emit(op, v, 2, 2, s, sd, g, z)
+            pr.emit(op, v, 3, 3, s0, s, s0, z, g, g)
+            pr.emit(op, v, 0, 0)
+            pr.emit(op, v, 2, 0, s, s)
+            pr.emit(op, v, 0, 2, g, g)
+        s0 = pr.scalar(0)
+        pr.emit("P.ScalarMult", v, s0, z)
+        pr.emit("P.VarTimeDoubleScalarBaseMult", v, s0, z, s)
+        pr.emit("P.VarTimeDoubleScalarBaseMult", v, s0, z, s0)
+        pr.emit("P.Equal", z, z)
         # zero-value receivers are fine
         for op in ("P.Add",):
             w = pr.point_zero()
@@ -1136,6 +1230,27 @@ def gen_C17(rng, tier):
             tn = point_in(pr, rng, t)
             o = pr.fresh("o")
             pr.emit("P.BytesMontgomery", tn, o)
+        # every special representation of q (one raw coordinate equal to 1, -1, or tiny)
+        for lam in special_lams(q, rng):
+            c = point_in(pr, rng, q, rescale_prob=0)
+            pr.rescale(c, lam)
+            o = pr.fresh("o")
+            pr.emit("P.BytesMontgomery", c, o)
+        # a receiver that has already been encoded is overwritten by each kind of writer and encoded again
+        r = point_in(pr, rng)
+        w = point_in(pr, rng)
+        sc = pr.scalar(rand_scalar(rng))
+        writers = [("P.Negate", r, w), ("P.Add", r, w, a), ("P.Subtract", r, w, b), ("P.Set", r, w), ("P.MultByCofactor", r, w),
+                   ("P.ScalarMult", r, sc, w), ("P.ScalarBaseMult", r, sc), ("P.Negate", r, r), ("P.NewIdentity", r),
+                   ("P.SetBytes", r, pr.bytes_(spec.encode_point(rand_point(rng)))), ("P.VarTimeDoubleScalarBaseMult", r, sc, w, sc),
+                   ("P.MultiScalarMult", r, 1, 1, sc, w)]
+        rng.shuffle(writers)
+        for wr in writers[:6]:
+            o = pr.fresh("o")
+            pr.emit("P.BytesMontgomery", r, o)
+            pr.emit(*wr)
+            o = pr.fresh("o")
+            pr.emit("P.BytesMontgomery", r, o)
         # X25519 public key of k
         k = rng.randbytes(32)
         kb = pr.bytes_(k)
@@ -1204,8 +1319,36 @@ def gen_C19(rng, tier):
     return cases
 
 
+def corner_limb_vectors(rng):
+    """limb vectors on the corners of the invariant: all limbs at one edge, and one limb at another edge"""
+    top = 2**52 - 38
+    vs = [[e] * 5 for e in LIMB_EDGES]
+    for i in range(5):
+        for e in (0, 2**51 - 1, top - 1, rng.randrange(2**51, top)):
+            v = [top] * 5
+            v[i] = e
+            vs.append(v)
+    vs.append([top - rng.randrange(0, 1 << 20) for _ in range(5)])
+    return vs
+
+
 def gen_C20(rng, tier):
     cases = []
+    # corners of the invariant first: both operands with all (or all but one) limbs at the upper bound
+    cv = corner_limb_vectors(rng)
+    pr = Prog(rng)
+    for la in cv:
+        for lb in ([cv[-2], cv[5], rng.choice(cv)] if tier == "quick" else cv):
+            a, b = pr.elem(limbs=la), pr.elem(limbs=lb)
+            v1, v2 = pr.elem(None), pr.elem(None)
+            pr.emit("E.Multiply", v1, a, b)
+            pr.emit("I.feMulGeneric", v2, a, b)
+        a = pr.elem(limbs=la)
+        v1, v2 = pr.elem(None), pr.elem(None)
+        pr.emit("E.Square", v1, a)
+        pr.emit("I.feSquareGeneric", v2, a)
+    pr.tag("asm vs generic on the corners of the limb invariant")
+    cases.append(pr)
     for _ in range(scale(tier, 30, 600)):
         pr = Prog(rng)
         a = pr.elem(limbs=rand_limbs(rng))
